@@ -85,17 +85,27 @@ def rule_ckpt(ctx: Ctx) -> None:
             ctx.check(ok, 'COH-LOADGUARD', f, f'{label}: {m} under compute_inverses on the loading rank with self.damping', norm(c),
                       f'{label}: {norm(c)} under {sorted(pos)}; second-order data must be recomputed on the loading rank exactly when compute_inverses, with the current damping', c)
         ctx.check({m for _c, m in comps} == {'compute_a_inv', 'compute_g_inv'}, 'COH-LOADGUARD', f, f'{label}: both factors are re-inverted', f'{label} both', f'{label} recomputes {sorted({m for _c, m in comps})}', f.node)
-    # ---- paths
-    def paths(f):  # noqa: ANN001, ANN202
-        return [re.sub(r'\s+', '', norm(n.value)) for n in p.nodes(f) if isinstance(n, ast.Assign) and norm(n.targets[0]) == 'filepath']
-    ps, pl = paths(sv), paths(lf)
-    want = ['os.path.join(self.factor_checkpoint_dir,name)']
-    ctx.check(ps == want, 'TAB-PATH', sv, f'save path {ps}', 'save path', f'save_factors_to_dir writes to {ps}; specified {want}', sv.node)
-    ctx.check(pl == want, 'TAB-PATH', lf, f'load path {pl}', 'load path', f'load_factors_from_dir reads {pl}; specified {want}', lf.node)
-    sa = [re.sub(r'\s+', '', norm(c)) for c in saves]
-    la = [re.sub(r'\s+', '', norm(n.value)) for n in p.nodes(lf) if isinstance(n, ast.Assign) and 'torch.load' in norm(n.value)]
-    ctx.check(sa == ['torch.save(layer_state_dict,filepath)'] and la == ['torch.load(filepath)'], 'TAB-PATH', lf, 'torch.save(state, filepath) / torch.load(filepath)', 'save/load calls',
-              f'files are written by {sa} and read by {la}', lf.node)
+    # ---- paths: the file written for a layer is the file read for it (through locals, if any)
+    import copy as _copy
+
+    def resolved(f, e: ast.expr, depth: int = 0) -> str:  # noqa: ANN001
+        class R(ast.NodeTransformer):
+            def visit_Name(self, n: ast.Name) -> ast.AST:  # noqa: N802
+                ds = p.local_defs(f, n.id)
+                if isinstance(n.ctx, ast.Load) and len(ds) == 1 and depth < 4 and n.id not in f.params:
+                    return ast.parse(resolved(f, ds[0], depth + 1), mode='eval').body
+                return n
+        return re.sub(r'\s+', '', norm(R().visit(_copy.deepcopy(e))))
+    want = 'os.path.join(self.factor_checkpoint_dir,name)'
+    save_calls = [c for c in p.calls_in(sv) if norm(c.func) == 'torch.save']
+    load_calls = [c for c in p.calls_in(lf) if norm(c.func) == 'torch.load']
+    ps = [resolved(sv, c.args[1]) if len(c.args) >= 2 else None for c in save_calls]
+    pl = [resolved(lf, c.args[0]) if c.args else None for c in load_calls]
+    ctx.check(ps == [want], 'TAB-PATH', sv, f'save path {ps}', 'save path', f'save_factors_to_dir writes to {ps}; specified {want} (one file per layer, named by the layer)', sv.node)
+    ctx.check(pl == [want], 'TAB-PATH', lf, f'load path {pl}', 'load path', f'load_factors_from_dir reads {pl}; specified {want}', lf.node)
+    objs = [resolved(sv, c.args[0]) for c in save_calls if c.args]
+    ctx.check(len(objs) == 1 and objs[0] in ('layer.state_dict()', 'layer_state_dict'), 'TAB-PATH', lf, 'torch.save(layer.state_dict(), path) / torch.load(path)', 'save/load calls',
+              f'files are written with {objs} and read by {[norm(c) for c in load_calls]}', lf.node)
     # ---- gather / merge
     txt = [re.sub(r'\s+', '', norm(st)) for st in sd.body]
     ok1 = any(t == 'state_dict=super().state_dict(include_factors=False)' for t in txt)
